@@ -57,7 +57,7 @@ def _start_monitoring():
 
     def on_start(code, offset):
         fn = code.co_filename
-        if fn.startswith(SRC):
+        if fn.startswith(SRC) and not code.co_name.startswith("<") and not code.co_name[:1].isupper():
             _FUNCS_SEEN.add((fn[len(SRC) + 1:], code.co_qualname))
         return mon.DISABLE
 
@@ -263,7 +263,7 @@ def main(argv=None):
         funcs.update(tuple(f) for f in r["funcs"])
         if r.get("error"):
             errors.append(f"{r['harness']} {r['cfg']}: {r['error']}\n{r.get('tb', '')}")
-        for s in r["samples"][:1]:
+        for s in sorted(r["samples"], key=lambda x: x["verdict"] != "unsat")[:1]:
             samples.append(dict(harness=r["harness"], cfg=r["cfg"], **s))
         if r["inconclusive"]:
             inconcl.append(dict(harness=r["harness"], cfg=r["cfg"], why=r["inconclusive"][:5]))
@@ -340,7 +340,7 @@ def main(argv=None):
         coverage=dict(
             states=max(1, tot.get("paths", 0)), transitions=max(1, tot.get("decisions", 0)),
             traces_validated_against_impl=st_ok,
-            samples=samples[:8] or [dict(note="no obligation sample recorded")],
+            samples=sorted(samples, key=lambda x: x["verdict"] != "unsat")[:8] or [dict(note="no obligation sample recorded")],
             configurations=len(results), obligations=tot.get("obligations", 0),
             queries=dict(total=tot.get("queries", 0), unsat=tot.get("q_unsat", 0), sat=tot.get("q_sat", 0),
                          unknown=tot.get("q_unknown", 0), closed_by_simplifier=tot.get("trivial", 0)),
